@@ -541,9 +541,10 @@ class BaseName:
         if not self._name.is_value_name:
             return ''
 
-        lines = self._name.get_root_context().code_lines
-        if lines is None:
-            # Probably a builtin module, just ignore in that case.
+        lines = getattr(self._name.get_root_context(), 'code_lines', None)
+        if lines is None or self._name.start_pos is None:
+            # Probably a builtin module or a namespace package, just ignore
+            # in that case.
             return ''
 
         index = self._name.start_pos[0] - 1
